@@ -169,3 +169,77 @@ def twins(tier, seed):
         assert va == rules.ACCEPT, ("positive twin not rule-valid", t["shape"], t["pos"])
         assert vr == rules.REJECT and t["rule"] in probs, ("negative twin not rule-invalid for the intended rule", t["shape"], probs)
     return out
+
+
+# ------------------------------------------------------------------------------------------------
+# bitenum twins (C10)
+# ------------------------------------------------------------------------------------------------
+
+def enum_twins(tier, seed):
+    """list of dict(pos=enum, neg=enum, rule, shape); enums are catalog.make_enum records named E"""
+    from .catalog import make_enum
+    out = []
+
+    def add(pos, neg, rule, shape):
+        out.append(dict(pos=pos, neg=neg, rule=rule, shape=shape))
+
+    widths = [1, 2, 3, 4, 5, 6, 7, 8] if tier == "quick" else list(range(1, 11))
+    edges = [9, 16, 17, 32, 33, 63, 64]
+    for n in widths:
+        space = 1 << n
+        full = list(range(space))
+        for syn in ("=", ":"):
+            # exhaustive = true with all values vs one missing
+            add(make_enum("E", n, full, "true", syntax=syn), make_enum("E", n, full[:-1] if space > 1 else [], "true", syntax=syn),
+                "claims-exhaustive-but-is-not", "exhaustive = true with 2^N-1 variants (syntax %s)" % syn) if space > 1 and len(full[:-1]) > 0 else None
+            if space > 2:
+                add(make_enum("E", n, full, "true", syntax=syn), make_enum("E", n, full[1:], "true", syntax=syn),
+                    "claims-exhaustive-but-is-not", "exhaustive = true with value 0 missing (syntax %s)" % syn)
+            # exhaustive = false / omitted with all values present
+            add(make_enum("E", n, full[:-1] or [0], "false", syntax=syn) if space > 1 else make_enum("E", n, [0], "false", syntax=syn), make_enum("E", n, full, "false", syntax=syn),
+                "is-exhaustive-but-not-declared", "exhaustive = false with all 2^N variants (syntax %s)" % syn)
+        add(make_enum("E", n, full[:-1] or [0], None), make_enum("E", n, full, None), "is-exhaustive-but-not-declared", "exhaustive omitted with all 2^N variants")
+        # 2^N + 1 variants (distinct discriminants, so one is 2^N)
+        add(make_enum("E", n, full, "true"), make_enum("E", n, full + [space], "true"), "too-many-variants", "2^N+1 variants, exhaustive = true")
+        add(make_enum("E", n, full[:-1] or [0], "false"), make_enum("E", n, full + [space], "false"), "too-many-variants", "2^N+1 variants, exhaustive = false")
+        # largest discriminant 2^N - 1 vs 2^N
+        if space > 2:
+            add(make_enum("E", n, [0, space - 1], "false"), make_enum("E", n, [0, space], "false"), "discriminant>=2^N", "discriminant = 2^N, exhaustive = false")
+            add(make_enum("E", n, [0, space - 1], None), make_enum("E", n, [0, space + 1], None), "discriminant>=2^N", "discriminant = 2^N+1, exhaustive omitted")
+        add(make_enum("E", n, [space - 1], "conditional"), make_enum("E", n, [space], "conditional"), "discriminant>=2^N", "discriminant = 2^N under conditional")
+        # same count as 2^N but with one discriminant out of range (so a value is missing)
+        if space > 1:
+            add(make_enum("E", n, full, "true"), make_enum("E", n, full[:-1] + [space], "true"), "discriminant>=2^N", "2^N variants, one discriminant = 2^N, exhaustive = true")
+        # cfg-gated variant without conditional
+        if space > 2:
+            add(make_enum("E", n, [0, 1], "conditional", cfg=[None, True]), make_enum("E", n, [0, 1], "false", cfg=[None, True]), "cfg-without-conditional", "cfg-gated variant under exhaustive = false")
+            add(make_enum("E", n, [0, 1], "conditional", cfg=[None, False]), make_enum("E", n, [0, 1], None, cfg=[None, False]), "cfg-without-conditional", "cfg-gated variant with exhaustive omitted")
+        add(make_enum("E", n, full, "conditional", cfg=[None] * (space - 1) + [True]), make_enum("E", n, full, "true", cfg=[None] * (space - 1) + [True]), "cfg-without-conditional", "cfg-gated variant under exhaustive = true")
+    for n in edges:
+        space = 1 << n
+        add(make_enum("E", n, [0, space - 1], "false"), make_enum("E", n, [0, space], "false"), "discriminant>=2^N", "discriminant = 2^N, exhaustive = false") if n < 64 else None
+        add(make_enum("E", n, [1, space - 1], "false"), make_enum("E", n, [1, space - 1], "true"), "claims-exhaustive-but-is-not", "exhaustive = true with two variants")
+        add(make_enum("E", n, [0, 5], "conditional", cfg=[None, True]), make_enum("E", n, [0, 5], "false", cfg=[None, True]), "cfg-without-conditional", "cfg-gated variant under exhaustive = false")
+    # discriminant forms
+    for n in (2, 3, 8, 16, 33):
+        pos = make_enum("E", n, [0, 1, 2], "false")
+        for text, shape in ((" = 1 + 1", "computed discriminant"), ("", "missing discriminant"), (" = -1", "negative discriminant"), (" = TWO", "named-constant discriminant")):
+            neg = make_enum("E", n, [0, 1, 2], "false")
+            neg["variants"][2] = dict(neg["variants"][2], discr=None, discr_text=text)
+            if "TWO" in text:
+                neg["prelude"] = "const TWO: isize = 2;"
+            add(pos, neg, "non-literal-or-missing-discriminant", shape)
+    # storage types
+    pos = make_enum("E", 8, [0, 1], "false")
+    for bt in ("u0", "u65", "u128", "i8", "usize", "bool"):
+        neg = dict(make_enum("E", 8, [0, 1], "false"), bits_text=bt)
+        add(pos, neg, "unsupported-storage", "storage type %s" % bt)
+    neg = dict(make_enum("E", 8, [0, 1], "false"), no_storage=True)
+    add(pos, neg, "unsupported-storage", "no storage type")
+    out = [t for t in out if t is not None]
+    for t in out:
+        va, _ = rules.enum_verdict(t["pos"])
+        vr, probs = rules.enum_verdict(t["neg"])
+        assert va == rules.ACCEPT, ("positive enum twin not rule-valid", t["shape"], _)
+        assert vr == rules.REJECT and (t["rule"] in probs), ("negative enum twin not rule-invalid as intended", t["shape"], probs)
+    return out
